@@ -141,6 +141,40 @@ def gen_chain_debt_cases(rng, N, modes=(False, True), viz_share=0.2):
     return out
 
 
+def gen_long_path_debt_cases(rng, N, modes=(False,), op="ewd"):
+    """deep debt far from the sink on long thin graphs (paths of 8..14 vertices, a few of them with
+    extra leaves): debt concentration needs hundreds of sweeps there - far more than any bound
+    that looks generous on small graphs"""
+    out = []
+    for _ in range(N):
+        n = rng.randint(8, 14)
+        spine = n if rng.random() < 0.7 else n - rng.randint(1, 2)
+        E = {(v, v + 1): 1 for v in range(spine - 1)}
+        for v in range(spine, n):
+            E[(rng.randrange(1, spine - 1), v)] = 1
+        d = rng.randint(13, 40) if spine >= 12 else rng.randint(25, 80) if spine >= 10 else rng.randint(100, 400)
+        deg = [0] * n
+        deg[0] = -(d + 1)
+        deg[spine - 1] = -d
+        for _k in range(rng.randint(0, 2)):
+            deg[rng.randrange(1, spine - 1)] += rng.randint(0, 2)
+        perm = list(range(n))
+        rng.shuffle(perm)
+        E = {(min(perm[a], perm[b]), max(perm[a], perm[b])): m for (a, b), m in E.items()}
+        deg2 = [0] * n
+        for v in range(n):
+            deg2[perm[v]] = deg[v]
+        g = {"n": n, "edges": gen.present_edges(rng, E), "_kind": "longpath", "_genus": 0, "names": gen.gen_names(rng, n)}
+        for opt in modes:
+            s = dict(g)
+            if op == "ewd":
+                s.update(op="ewd", deg=deg2, opt=opt, viz=False, _band=gen.band_of(sum(deg2), 0), _debt="longpath", timeout=60)
+            else:
+                s.update(op="dhar", deg=deg2, q=perm[0], viz=False, _band=gen.band_of(sum(deg2), 0), _debt="longpath", timeout=60)
+            out.append(s)
+    return out
+
+
 def gen_huge_bundle_cases(rng, N, modes=(False, True)):
     """edge bundles and chip counts far beyond double precision (2^53..2^60); divisors are built as
     E - L*s from a small effective E and a small script s (or one chip short of that), so the runs
@@ -453,6 +487,7 @@ def c02_generate(rng, tier):
     a = gen_ewd_cases(rng, count(tier, 300, 3000), nmax=count(tier, 6, 8), viz_share=0, modes=(False,))
     a += gen_chain_debt_cases(rng, count(tier, 60, 1000), modes=(False,), viz_share=0)
     a += gen_uniform_debt_cases(rng, count(tier, 900, 8000), nmax=count(tier, 6, 7))
+    a += gen_long_path_debt_cases(rng, count(tier, 16, 300))
     tag_cmp(a, ["D", "verdict"], rel=["verdict"])
     b = genhist.gen_api(rng, count(tier, 200, 3000), nmax=count(tier, 6, 7))
     tag_cmp(b, ["q_reduction", "is_q_reduced", "is_winnable"], rel=["is_winnable"])
@@ -546,6 +581,7 @@ PROPS["C07"] = {"generate": c07_generate, "strata": algo_strata,
 # ---- C08
 def c08_generate(rng, tier):
     a = genhist.gen_dhar(rng, count(tier, 400, 6000), nmax=count(tier, 6, 8))
+    a += gen_long_path_debt_cases(rng, count(tier, 16, 300), op="dhar")
     # the sequence of recorded borrowing steps is not compared: only its result is pinned down
     # (least action); the recorded snapshots are C18's business
     return tag_cmp(a, ["after_debt", "unburnt", "after_fire", "superstable", "argtotal", "direct_unburnt", "direct_after"])
@@ -916,6 +952,8 @@ def c18_judge(rec):
                 fails.append("a recorded debt-concentration snapshot has another total degree than the input")
         if s["op"] == "ewd" and p.get("trace") == "ALIASED":
             fails.append("recorded snapshots change when the returned divisor is modified afterwards")
+        if s["op"] == "ewd" and p.get("trace") == "GRAPH-ALIASED":
+            fails.append("recorded snapshots sit on the live graph: editing the graph after the run changes the graph of a recorded step")
         if s["op"] == "elements":
             n = s["n"]
             tot = sum(k for _, _, k in s["edges"])
@@ -1029,6 +1067,9 @@ def c19_generate(rng, tier):
     import regen
     a = genhist.gen_bounds(rng, count(tier, 60, 400), nmax=count(tier, 5, 6), exhaustive_upto=count(tier, 4, 5))
     a += genhist.gen_bounds_alpha(rng, count(tier, 100, 1000))
+    # isomorphism classes of connected simple graphs: a sample of the 112 classes on 6 vertices
+    # (quick), all of them and all 853 classes on 7 vertices (thorough)
+    a += genhist.gen_bounds_atlas(rng, 40, 6, 6) if tier == "quick" else genhist.gen_bounds_atlas(rng, 10 ** 6, 6, 7)
     b = genhist.gen_closed(rng, tier)
     extra = []
     # true gonality of the graphs behind the multipartite closed form, by the verified search (model side only)
